@@ -160,6 +160,26 @@ def gen(rng, tier):
             b = bytearray(vlib.unhx(toks[1])); b[3] &= 0xEF
             toks[1] = hx(b)
             out.append(Case("pmt.filter %s %s" % (" ".join(toks), fmt_val(want)), kind="fid-nopayload", decides=False, nontrivial=False))
+    out += gen_alias(rng, tier, [(c, p) for c, p, h in zip(carriers, payloads, hyps) if h == "1"])
+    return out
+
+
+def gen_alias(rng, tier, wf):
+    """one PMT object the way a long-lived caller uses it (pmt.hist, notes/aliasing.md): query, remove, query, remove again,
+    query; every getter after every step, every query asked twice"""
+    out = []
+    for c, p in wf:
+        have = [x for _, x, _ in c["sec"]["streams"]]
+        for _ in range(2):
+            qs = have + [9, 0, 8000]
+            script = []
+            for _ in range(rng.randrange(2, 6)):
+                if rng.random() < 0.5:
+                    script.append([0, rng.sample(qs, rng.randrange(1, len(qs) + 1))])
+                else:
+                    script.append([1, [rng.choice(have + [9, 8000]) for _ in range(rng.randrange(0, 3))]])
+            script = [[0, qs]] + script + [[0, qs]]
+            out.append(Case("pmt.hist %s %s" % (hx(p), fmt_val(script)), kind="hist", theorem="C14_remove_streams"))
     return out
 
 
